@@ -1,7 +1,20 @@
 //! C15 — transforms and polynomial algebra (see DESIGN.md §C15).
 
+use plonky2_field::goldilocks_field::GoldilocksField as F;
+use plonky2_field::polynomial::PolynomialCoeffs;
+use plonky2_field::types::Field;
+
 use crate::engine::Ctx;
 
 pub fn run(ctx: &mut Ctx) {
     let _ = ctx;
+    let a = PolynomialCoeffs::new(vec![F::ONE, F::ZERO, F::ONE]);
+    for n in 1..=9 {
+        let r = crate::engine::catch(|| a.inv_mod_xn(n));
+        eprintln!("inv_mod_xn([1,0,1],{}) = {:?}", n, r.map(|p| p.coeffs));
+    }
+    let num = PolynomialCoeffs::new(vec![F::ONE, F::TWO, F::ONE, F::ZERO, F::ZERO, F::ONE]);
+    let r = crate::engine::catch(|| num.div_rem(&a));
+    eprintln!("div_rem = {:?}", r);
+    eprintln!("long = {:?}", num.div_rem_long_division(&a));
 }
